@@ -165,4 +165,20 @@ example : (choose [some (4, 0), some (0, 0), some (3, 2)]).1 = some 1 := by deci
 example : (choose [some (2, 16), some (2, 16)]) = (some 0, [some (2, 15), some (2, 15)]) := by decide
 example : chooseOk [some (2, 5), some (2, 3), some (2, 4)] (some 2) = false := by decide
 
+/-- **a server configured for blocking start-up stays eligible while its first connection is being set up**: entering the
+    connecter does not take it out of the blocking-start-up state, so `choosesrvconf` still treats it like a connected one -/
+theorem connectStart_blocking : Choose.connectStart Choose.stBlocking = Choose.stBlocking := by decide
+
+/-- only a connected server is marked as reconnecting by a connection attempt -/
+theorem connectStart_reconnecting_iff (st : Nat) :
+    Choose.connectStart st = Choose.stReconnecting ↔ (st = Choose.stConnected ∨ st = Choose.stReconnecting) := by
+  unfold Choose.connectStart Choose.stConnected Choose.stReconnecting
+  constructor
+  · intro h; split at h
+    · left; assumption
+    · right; exact h
+  · intro h; rcases h with h | h
+    · simp [h]
+    · subst h; simp
+
 end Rsp.Props.C09
